@@ -33,20 +33,21 @@ Print Assumptions C19_route_total_and_eligible.
    between, and more fuel changes nothing. *)
 Theorem C19_route_terminates :
   forall (strat : strategy) (H : hashes) (order : list node) (st : state) (s : shard),
-  snd (route_write_gen no_interf 1 0 strat H order st s) <> Hang /\
-  forall f, route_write_gen no_interf (S f) 0 strat H order st s
-            = route_write_gen no_interf 1 0 strat H order st s.
+  snd (route_write_gen no_interf 1 0 strat H (fun _ => order) st s) <> Hang /\
+  forall f, route_write_gen no_interf (S f) 0 strat H (fun _ => order) st s
+            = route_write_gen no_interf 1 0 strat H (fun _ => order) st s.
 Proof. exact route_terminates. Qed.
 Print Assumptions C19_route_terminates.
 
 (* ... and when other tasks change the registry arbitrarily between the assignment and the
-   lookup of every attempt ([interf]), the call still returns within ROUTE_FUEL loop tests,
+   lookup of every attempt ([interf]; the map's iteration order may change per attempt, [orders]),
+   the call still returns within ROUTE_FUEL loop tests,
    and an Ok(node) can accept writes in the registry as it is at its lookup. *)
 Theorem C19_route_bounded_under_interference :
-  forall (interf : N -> registry -> registry) (strat : strategy) (H : hashes) (order : list node)
+  forall (interf : N -> registry -> registry) (strat : strategy) (H : hashes) (orders : N -> list node)
          (st : state) (s : shard),
-  snd (route_write_gen interf ROUTE_FUEL 0 strat H order st s) <> Hang /\
-  forall st' n, route_write_gen interf ROUTE_FUEL 0 strat H order st s = (st', Done n) ->
+  snd (route_write_gen interf ROUTE_FUEL 0 strat H orders st s) <> Hang /\
+  forall st' n, route_write_gen interf ROUTE_FUEL 0 strat H orders st s = (st', Done n) ->
                 eligible (st_reg st') n = true.
 Proof. exact route_bounded_under_interference. Qed.
 Print Assumptions C19_route_bounded_under_interference.
@@ -80,7 +81,7 @@ Theorem C19_moves_only_when_ineligible_or_rebalanced :
   aget N.eqb s (st_asg st') <> Some n ->
   (exists order, o = ORebalance order) \/
   (exists order, o = ORoute s order /\ eligible (st_reg st) n = false) \/
-  (exists order specs, o = ORouteI s order specs).
+  (exists orders specs, o = ORouteI s orders specs).
 Proof. exact moves_only_when_ineligible_or_rebalanced_hist. Qed.
 Print Assumptions C19_moves_only_when_ineligible_or_rebalanced.
 
@@ -90,7 +91,7 @@ Theorem C19_assigned_only_by_route :
   step strat H st o = (st', r) ->
   aget N.eqb s (st_asg st) = None ->
   aget N.eqb s (st_asg st') <> None ->
-  (exists order, o = ORoute s order) \/ (exists order specs, o = ORouteI s order specs).
+  (exists order, o = ORoute s order) \/ (exists orders specs, o = ORouteI s orders specs).
 Proof. exact assigned_only_by_route. Qed.
 Print Assumptions C19_assigned_only_by_route.
 
